@@ -264,7 +264,7 @@ def shards(tier, seed):
     for ci, info in enumerate(covered):
         for n in ns_B(info, tier):
             cases = cases_B_SO(info, n, tier)
-            step = 700 if info["enc"] == "subset" else 350
+            step = (700 if info["enc"] == "subset" else 350) * (5 if tier == "thorough" else 1)
             for i in range(0, len(cases), step):
                 out.append(("B-SO", ci, n, i, min(len(cases), i + step)))
         out.append(("B-MO", ci))
@@ -305,7 +305,7 @@ def cases_B_SO(info, n, tier):
     opts = (["sorting"] if (F["sorting"] and info["enc"] == "subset") else []) + ["first", "last"]
     wts = [1.0, -1.0] + ([2.5] if T else [])
     nv = len(variants(n, tier))
-    vis = list(range(nv)) if (T or n <= 3) else [0, 1, 3]
+    vis = list(range(nv)) if ((T and n <= 4) or n <= 3) else [0, 1, 3]
     out = []
     k = 0
     ts = [1] + ([2] if (F.get("tmax", 2) >= 2 and F["kind"] == "indiv") else [])
@@ -322,7 +322,7 @@ def cases_B_SO(info, n, tier):
                     else:
                         use = [combos[k % len(combos)]]
                     for (w, o, pi) in use:
-                        out.append((t, ranks, vi, design, w, o, pi, k % 4, 1 if k % 13 == 5 else 0))
+                        out.append((t, ranks, vi, design, w, o, pi, k % 4, 1 if k % (29 if T else 13) == 5 else 0))
                         k += 1
     return out
 
@@ -574,7 +574,7 @@ def _fam_kwargs(fam, pop, par):
     if fam == "OptimalPopulationValueSelection":
         return dict(ntrait=pop.t, nhaploblk=pop.m)
     if fam == "GenotypeBuilderSelection":
-        return dict(ntrait=pop.t, nhaploblk=pop.m, nbestfndr=0.5)
+        return dict(ntrait=pop.t, nhaploblk=pop.m, nbestfndr=1)
     if fam in ("MultiObjectiveGenomicSelection", "PopulationAlleleFrequencyDistanceSelection", "PopulationAlleleUnavailabilitySelection"):
         from pybrops.breed.prot.sel.targetfn import target_positive
         from pybrops.breed.prot.sel.weightfn import weight_absolute
